@@ -137,7 +137,8 @@ def prog_task(task):
             out["fails"].append({"kind": "program", "prog": show(prog), "clause": "constructor", "detail": repr(e)[:200], "seed": seed})
             continue
         held = []   # results the caller still holds while it makes further calls on the same object
-        for dname, den in (("forward", st["fwd"]), ("inverse", st["inv"])):
+        # the same object is called again in either direction: a composite is a function, whatever it was used for before
+        for dname, den in (("forward", st["fwd"]), ("inverse", st["inv"]), ("inverse", st["inv"]), ("forward", st["fwd"])):
             out["n"] += 1
             # oracle of the property itself: hand-chained parts in the denoted order
             y = x.clone()
